@@ -82,7 +82,11 @@ def cases(tier, cfg):
             if t in ("f32", "i32") and base:
                 opsw = [0, 1, 5, 6] + ([2, 3, 4] if fp else [])
                 names = {0: "neg", 1: "abs", 2: "sqrt", 3: "rcp", 4: "rsqrt", 5: "add_self", 6: "mul_self"}
-                full = tier == "thorough" and native and abi != "scalar"
+                # the full 2^32 sweep runs where a (type, ABI) specialisation first becomes native, where the ISA changes its helpers
+                # (SSE4.2 / AVX2 integer instructions, FMA) and under the widest ISA; elsewhere the 2^24 lattice (fits the tier's deadline)
+                FULL_AT = {("f32", "sse"): ("S2", "A5"), ("f32", "avx"): ("A1", "A2", "A5"), ("f32", "avx512"): ("A5",),
+                           ("i32", "sse"): ("S2", "S4", "A5"), ("i32", "avx"): ("A2", "A5"), ("i32", "avx512"): ("A5",)}
+                full = tier == "thorough" and native and abi != "scalar" and cfg.isa in FULL_AT.get((t, abi), ())
                 for op in opsw:
                     bound = "1.0/16384.0*1.0001" if abi == "avx512" else "1.5/4096.0"
                     out.append(Case(f"C08/sweep32_{names[op]}[{ident}]", f"c08::g_sweep32<{V}>(fx, {op}, {0 if full else 1}, {bound});",
@@ -98,7 +102,7 @@ def cases(tier, cfg):
 def bounds(tier):
     return {"quick": "all vector types per ISA (scalar, native ABIs, one generic array type) x all operation groups; alphabets |S|~40 (binary: S^2, ternary: (S/3)^3), "
                      "all 2^Size masks, misalignments 0..63; 32-bit unary sweeps on the declared 2^24 sub-lattice {high half-word free} x {256 boundary low half-words}",
-            "thorough": "as quick plus the full 2^32 sweep of neg, abs, sqrt, rcp, rsqrt, x+x, x*x for every native 32-bit vector type under each ISA; O0/O3/clang variants"}[tier]
+            "thorough": "as quick plus the full 2^32 sweep of neg, abs, sqrt, rcp, rsqrt, x+x, x*x for every native 32-bit vector type under the ISA where it first becomes native, the ISAs that change its helpers (SSE4.2, AVX2, FMA) and AVX-512; O0/O3/clang variants"}[tier]
 
 
 EXHAUSTIVE_WITHIN_BOUNDS = True
